@@ -1280,7 +1280,15 @@ def c20_case(res: StreamResult | None, script: Script | None, base: Path, case: 
                      {"case": case, "len_plain": len(ref_new), "len_instrumented": None if new is None else len(new)})
     key = site_key(ops)
     classes = []
-    for k in range(len(ops) + 1):
+    points = list(range(len(ops) + 1))
+    if case.get("sparse"):
+        # a results file of several MiB: every crash run re-does the whole save, so crash only after every operation that is not a
+        # write, after the first three and the last three writes, and after ~8 writes spread evenly in between
+        wr = [k for k, o in enumerate(ops) if o[0] == "w"]
+        keep = {k + 1 for k, o in enumerate(ops) if o[0] != "w"} | {0, len(ops)} | {k + 1 for k in wr[:3] + wr[-3:]} | \
+            {wr[(j * len(wr)) // 9] + 1 for j in range(1, 9) if wr}
+        points = sorted(k for k in keep if 0 <= k <= len(ops))
+    for k in points:
         ops_k, cur, crashed, err, others = crash_run(hist, base / f"{tag}_w", case, k if k < len(ops) else None)
         if res is not None:
             res.evaluations += 1
@@ -1313,7 +1321,7 @@ def c20_case(res: StreamResult | None, script: Script | None, base: Path, case: 
             what = (what + "; " if what else "") + "the results file is gone"
         if what:
             failures.append((what, k, key))
-    if script is not None:
+    if script is not None and not case.get("sparse"):
         init_tok = ",".join(f"{_san(n)}={b.hex()}" for n, b in sorted(init.items())) or "-"
         line = f"store crash {TARGET} {init_tok} " + " ".join(op_token(o) for o in ops)
         script.add(line.rstrip(), None, {"case": case, "classes": classes, "ops": [show_op(o) for o in ops], "key": key})
@@ -1331,6 +1339,10 @@ def replay_dict(case: dict, k: int | None, ops: list[tuple], what: str) -> dict:
                    + ("the results directory `dir` must be on a DIFFERENT file system than tempfile.gettempdir() (e.g. dir under /dev/shm, "
                       "temp dir under /tmp); " if case.get("fs") == "other" else "") +
                    "equivalently: `check.py C20 --replay <this file>`"}
+
+
+C20_PATH_NAMES = ["data", "data.json", "data.json.tmp", "data.tmp", "tmp", ".", "..", "", "data.json.tmp.tmp"]
+C20_SPECIAL_AT = {"quick": {7: "5MiB", 13: "many"}, "thorough": {7: "5MiB", 13: "many", 20: "40MiB", 31: "5MiB", 40: "many"}}
 
 
 def run_c20(tier, budget: Budget, rnd) -> StreamResult:
@@ -1360,6 +1372,23 @@ def run_c20(tier, budget: Budget, rnd) -> StreamResult:
             # stages its new content in the temp directory can then not rename it into place)
             if i % 4 == 1:
                 case["fs"] = "other"
+            # names that collide with the paths a save works with (the results file's stem, the file itself, its temporary)
+            if i % 6 == 5:
+                case["name"] = C20_PATH_NAMES[(i // 6) % len(C20_PATH_NAMES)]
+                res.count("name:path-like")
+            if i in C20_SPECIAL_AT.get(tier, {}):
+                # results files far above every buffer size: one earlier run of several MiB (quick) / tens of MiB (thorough), or very
+                # many earlier runs; crash points are sampled (`sparse`), the byte-level oracle runs, the model line is skipped
+                kind_ = C20_SPECIAL_AT[tier][i]
+                if kind_ == "many":
+                    case["earlier"] = [{"rows": 1, "cols": 2, "seed": rnd.randint(0, 10 ** 6)} for _ in range(160)]
+                else:
+                    side = {"5MiB": 520, "40MiB": 1480}[kind_]
+                    case["earlier"] = [{"rows": 3, "cols": 4, "seed": 5}, {"rows": side, "cols": side, "seed": rnd.randint(0, 10 ** 6)}]
+                case["sparse"], case["stale_tmp"] = True, False
+                case["new"] = {"rows": 70, "cols": 60, "seed": rnd.randint(0, 10 ** 6)}     # several buffers long: many write operations
+                case.pop("fs", None)
+                res.count(f"history:{kind_}")
             res.count("results-dir:" + ("other-file-system" if case.get("fs") == "other" and other is not None else "same-file-system"))
             failures, ops = c20_case(res, script, other if case.get("fs") == "other" and other is not None else base, case, f"c{i}")
             all_ops.append(ops)
